@@ -157,8 +157,9 @@ def main(argv=None):
             else:
                 violations.append(f)
 
-    os.makedirs(os.path.join(ROOT, "replays"), exist_ok=True)
-    os.makedirs(os.path.join(ROOT, "evidence"), exist_ok=True)
+    OUT = os.environ.get("SYMX_OUT", ROOT)      # scratch output directory for runs against modified trees (seeded changes)
+    os.makedirs(os.path.join(OUT, "replays"), exist_ok=True)
+    os.makedirs(os.path.join(OUT, "evidence"), exist_ok=True)
     vio_paths = []
     seen = set()
     for f in violations:
@@ -166,7 +167,7 @@ def main(argv=None):
         if key in seen:
             continue
         seen.add(key)
-        path = os.path.join(ROOT, "replays", f"{pid}-{key}.json")
+        path = os.path.join(OUT, "replays", f"{pid}-{key}.json")
         json.dump({'property': pid, 'finding': f}, open(path, "w"), indent=1)
         vio_paths.append((path, f))
 
@@ -219,7 +220,7 @@ def main(argv=None):
         "wall_s": wall,
         "violations": len(vio_paths),
     }
-    json.dump(ev, open(os.path.join(ROOT, "evidence", f"{pid}.json"), "w"), indent=1)
+    json.dump(ev, open(os.path.join(OUT, "evidence", f"{pid}.json"), "w"), indent=1)
 
     for kid, fs in known_hits.items():
         print(f"KNOWN-FINDING: property={pid} {known[kid]['what']} [{kid}; {len(fs)} witness(es), e.g. {json.dumps(fs[0].get('inputs'))[:200]}]")
